@@ -1,7 +1,7 @@
 (** C18 — animations keep their transparency in lossy and mixed-codec modes. *)
 From Coq Require Import List ZArith.
 From Webp Require Import Anim.Blend Anim.Canvas Anim.AnimDec Anim.AnimEncModel Anim.AnimEncSpec
-  Anim.AnimEncLemmas Anim.AnimEncProofs Anim.AnimEncMain Anim.AnimEncWitness.
+  Anim.AnimEncLemmas Anim.AnimEncProofs Anim.AnimEncMain Anim.AnimEncWitness Anim.AnimEncCodec.
 Import ListNotations.
 Open Scope Z_scope.
 
@@ -101,3 +101,51 @@ Theorem C18_mixed_never_drops_alpha : forall (rt_ll rt_ly : img -> img) via r,
   map pa (ipix (decoded rt_ll rt_ly repaired via r)) = map pa (ipix (m_img r)).
 Proof. exact mixed_never_drops_alpha. Qed.
 Print Assumptions C18_mixed_never_drops_alpha.
+
+(** * On the codec models (wave 8)
+
+    The two codec hypotheses discharged: the VP8L frame codec is decode-after-emit of
+    Vp8l/Vp8lRoundtrip.v for any valid encoder choices (lossless_roundtrip), the lossy
+    frame codec is any colour decode of the right size with the alpha plane decoded from the
+    ALPH chunk the encoder writes, for any filter and any valid plan of the lossless alpha
+    coder (Conform/ConformAlpha.alpha_lossless_chunk_exact, the chunk-level fact behind
+    ConformEndToEndLossy.lossy_alpha_file_conformant). *)
+Theorem C18_codec_lossless_model : forall o choose,
+  ll_choices_valid o choose -> codec_lossless (rt_ll_model o choose).
+Proof. exact codec_lossless_model. Qed.
+Print Assumptions C18_codec_lossless_model.
+
+Theorem C18_codec_alpha_exact_model : forall colour achoose,
+  colour_ok colour -> alpha_choices_valid achoose -> codec_alpha_exact (rt_ly_model colour achoose).
+Proof. exact codec_alpha_exact_model. Qed.
+Print Assumptions C18_codec_alpha_exact_model.
+
+Theorem C18_anim_alpha_preserved_on_models :
+  forall o choose colour achoose,
+    ll_choices_valid o choose -> colour_ok colour -> alpha_choices_valid achoose ->
+  forall (W H : Z) (opts : eopts) (frames : list (img * Z))
+         (oracle : nat -> orc) (has_meta simple : bool) (st0 : est) (out : output),
+    wf_canvas_dims W H -> alpha_opts opts -> frames <> [] -> Forall wf_input frames ->
+    new_encoder W H opts = Some st0 ->
+    close has_meta simple (run_frames repaired oracle st0 frames) = Some out ->
+    same_show_by alpha_only W H (eo_loop opts) out
+      (playback (rt_ll_model o choose) (rt_ly_model colour achoose) repaired out) (inputs_of W H frames).
+Proof. exact anim_alpha_preserved_on_models. Qed.
+Print Assumptions C18_anim_alpha_preserved_on_models.
+
+Theorem C18_anim_mixed_alpha_on_models :
+  forall o choose colour achoose,
+    ll_choices_valid o choose -> colour_ok colour -> alpha_choices_valid achoose ->
+  forall (W H : Z) (opts : eopts) (ops : list op)
+         (oracle : nat -> orc) (fails : nat -> efail) (maxf : Z) (has_meta simple : bool)
+         (st0 stf : est) (acc : list op) (out : output),
+    wf_canvas_dims W H -> alpha_opts opts -> Forall (AnimEncSpec.wf_op W H) ops ->
+    new_encoder W H opts = Some st0 ->
+    run_ops repaired maxf oracle fails st0 ops = (stf, acc) ->
+    lone_small_raw_ok W H has_meta acc ->
+    close has_meta simple stf = Some out ->
+    same_show_by alpha_only W H (eo_loop opts) out
+      (playback (rt_ll_model o choose) (rt_ly_model colour achoose) repaired out)
+      (ref_show W H (blank W H, None) acc).
+Proof. exact anim_mixed_alpha_on_models. Qed.
+Print Assumptions C18_anim_mixed_alpha_on_models.
